@@ -24,6 +24,8 @@ import Restful.Lemmas.Classify
 import Restful.Lemmas.TieImpScore
 import Restful.Lemmas.TieImpMatch
 import Restful.Lemmas.TieImpTemplate
+import Restful.Lemmas.TieImpCurlySel
+import Restful.Lemmas.TieImpJsrSel
 namespace Restful
 namespace Props
 variable (E : ReEnv)
@@ -595,3 +597,7 @@ end Restful
 -- also: Restful.TieImp.T2.webservice_score
 -- also: Restful.TieImp.match_tokens
 -- also: Restful.TieImp.template_to_regex
+-- also: Restful.TieImp.detect_web_service
+-- also: Restful.TieImp.select_routes
+-- also: Restful.TieImp.jsr_select_routes
+-- also: Restful.TieImp.jsr_detect_dispatcher
